@@ -218,6 +218,63 @@ fn run_crypto(raw_second: bool, max_preemptions: Option<usize>) {
     });
 }
 
+/// Lookups by name (and the name listing) as the FIRST thing each thread does on a freshly opened archive: whatever the
+/// crate builds lazily for them is built under contention. `mixed`: the second thread opens by index instead.
+fn run_byname(threads: usize, mixed: bool, max_preemptions: Option<usize>) {
+    let (bytes, truth) = archive(3);
+    let mut b = loom::model::Builder::new();
+    b.preemption_bound = max_preemptions;
+    b.check(move || {
+        EXECUTIONS.fetch_add(1, Ordering::Relaxed);
+        let bytes = bytes.clone();
+        let truth = truth.clone();
+        let root = loom::thread::Builder::new()
+            .stack_size(1 << 20)
+            .spawn(move || {
+                let ar = zip::ZipArchive::new(Cursor::new(bytes)).expect("open");
+                let mut hs = vec![];
+                for t in 0..threads {
+                    let mut mine = ar.clone();
+                    let truth = truth.clone();
+                    hs.push(
+                        loom::thread::Builder::new()
+                            .stack_size(1 << 20)
+                            .spawn(move || {
+                                let i = (t + 1) % 3;
+                                if mixed && t == 1 {
+                                    let mut f = mine.by_index(i).expect("by_index");
+                                    let mut v = vec![];
+                                    f.read_to_end(&mut v).expect("read");
+                                    assert_eq!(v, truth[i].0, "content of entry {i} seen by thread {t}");
+                                } else {
+                                    let name = format!("entry{i}");
+                                    {
+                                        let mut f = mine.by_name(&name).unwrap_or_else(|e| panic!("thread {t}: by_name({name:?}) of an existing name failed: {e}"));
+                                        assert_eq!(f.name(), name, "thread {t}: by_name returned another entry");
+                                        assert_eq!(f.data_start(), truth[i].1, "data_start of entry {i} seen by thread {t}");
+                                        let mut v = vec![];
+                                        f.read_to_end(&mut v).expect("read");
+                                        assert_eq!(v, truth[i].0, "content of entry {i} seen by thread {t}");
+                                    }
+                                    let mut names: Vec<String> = mine.file_names().map(|s| s.to_string()).collect();
+                                    names.sort();
+                                    assert_eq!(names, vec!["entry0".to_string(), "entry1".to_string(), "entry2".to_string()], "thread {t}: file_names()");
+                                    assert!(matches!(mine.by_name("no such entry"), Err(zip::result::ZipError::FileNotFound)), "thread {t}: absent name");
+                                }
+                            })
+                            .unwrap(),
+                    );
+                }
+                drop(ar);
+                for h in hs {
+                    h.join().unwrap();
+                }
+            })
+            .unwrap();
+        root.join().unwrap();
+    });
+}
+
 static EXECUTIONS: AtomicUsize = AtomicUsize::new(0);
 
 fn run(threads: usize, per_thread: usize, shared_entries: bool, max_preemptions: Option<usize>) {
@@ -283,6 +340,9 @@ fn main() {
         "3x1-disjoint" => run(3, 1, false, bound),
         "3x1-shared" => run(3, 1, true, bound),
         "2x1-shared" => run(2, 1, true, bound),
+        "2x1-byname" => run_byname(2, false, bound),
+        "2x1-byname-mixed" => run_byname(2, true, bound),
+        "3x1-byname" => run_byname(3, false, bound),
         "2x1-crypto-pw-pw" => run_crypto(false, bound),
         "2x1-crypto-pw-raw" => run_crypto(true, bound),
         s => {
